@@ -36,6 +36,8 @@ bb6a35c C08 C08.position
 c15ed5e C08 C08.reset
 8c82aca C10 C10.direction
 1da8b63 C09 C09.bounds
+508f87a C17 C17.reset
+200dc39 C07 C07.strategies
 e6f927d C16 C16.destreads
 LIST
 git -C /repo worktree remove --force $WT
